@@ -1,14 +1,19 @@
 package main
 
 import (
+	"errors"
 	"fmt"
+	"io"
 	"math"
 	"math/rand"
 	"strconv"
 	"strings"
 
 	geom "github.com/twpayne/go-geom"
+	"github.com/twpayne/go-geom/encoding/wkbcommon"
 )
+
+var errFault = errors.New("injected writer fault")
 
 // ---- deterministic PRNG: every random choice derives from one seed ----
 
@@ -118,6 +123,24 @@ func sxErr(err error) string {
 		return fmt.Sprintf("(err layoutMismatch %d %d)", int(e.Got), int(e.Want))
 	case geom.ErrUnsupportedLayout:
 		return fmt.Sprintf("(err unsupportedLayout %d)", int(e))
+	case wkbcommon.ErrUnknownByteOrder:
+		return fmt.Sprintf("(err unknownByteOrder %d)", int(e))
+	case wkbcommon.ErrUnknownType:
+		return fmt.Sprintf("(err unknownType %d)", uint32(e))
+	case wkbcommon.ErrUnsupportedType:
+		return "(err unsupportedType)"
+	case wkbcommon.ErrUnexpectedType:
+		return "(err unexpectedType)"
+	case wkbcommon.ErrGeometryTooLarge:
+		return fmt.Sprintf("(err tooLarge %d %d %d)", e.Level, e.N, e.Limit)
+	}
+	switch {
+	case err == io.EOF:
+		return "(err eof)"
+	case err == io.ErrUnexpectedEOF:
+		return "(err unexpectedEof)"
+	case err == errFault:
+		return "(err writer)"
 	}
 	return "(err other)"
 }
